@@ -343,6 +343,57 @@ def _zone(name, i):
     return _akai_name(name) + bytes([10 + i, 100 + i, 0, (i - 2) & 0xFF, (3 * i) & 0xFF, (250 + i) & 0xFF, i, i % 5]) + b"\xff\xff\x2c\x01"
 
 
+def build_program(nk, zcounts, addrs, base=0, gap1=0):
+    """independent writer for an AKAI program file: 150-byte header (every numeric byte its own value) + keygroups at `addrs`"""
+    hdr = bytearray(150)
+    first = addrs[0]
+    vals = {}
+    for (name, off, w, signed) in T_PROGRAM:
+        v = (off * 3 + base * 17 + 1) % 120
+        if name == "program_id":
+            v = 1
+        elif name == "first_keygroup_address":
+            v = first
+        elif name == "number_of_keygroups":
+            v = nk
+        elif name == "priority":
+            v = (off + base) % 4
+        elif name == "voice_reassign":
+            v = base % 2
+        elif name in ("low_key", "high_key"):
+            v = 21 + (off + base) % 100
+        elif name in ("voice_output_scale_db", "stereo_output_scale_db"):
+            v = base % 2
+        elif signed:
+            v = ((off * 5 + base) % 100) - 50
+        vals[name] = v
+        hdr[off:off + w] = int(v).to_bytes(w, "little", signed=v < 0)
+    hdr[3:15] = _akai_name("PROG NAME")
+    blob = bytearray(max(addrs) + 150 + 32)
+    blob[:150] = hdr
+    for g in range(nk):
+        nxt = addrs[g + 1] if g + 1 < nk else 0
+        kg = bytearray(150)
+        kg[0] = 2
+        kg[1:3] = struct.pack("<H", nxt)
+        kg[3], kg[4] = 24 + g, 100 + g
+        for i in range(5, 31):
+            kg[i] = (i * 2 + g) % 100
+        kg[30] = g % 2
+        kg[31] = 4
+        kg[32:34] = b"\xff\xff"
+        for zi in range(4):
+            nm = "ZONE %d %d" % (g, zi) if zi < zcounts[g] else ""
+            kg[34 + 24 * zi:58 + 24 * zi] = _zone(nm, zi)
+        kg[130], kg[131] = 5 + g, 1
+        kg[132:136] = bytes([1, 0, 1, 0])
+        kg[136:140] = bytes([3, 4, 5, 6])
+        kg[140:148] = struct.pack("<hhhh", -3, 7, -11, 13)
+        kg[148] = 9
+        blob[addrs[g]:addrs[g] + 150] = kg
+    return bytes(blob), vals
+
+
 def h_ls_program(nk: int, z0: int, z1: int, gap0: int, gap1: int, base: int, desc: int) -> int:
     """
     pre: 1 <= nk <= 2 and 0 <= z0 <= 4 and 0 <= z1 <= 4 and 0 <= gap0 <= 2 and 0 <= gap1 <= 2 and 0 <= base <= 3 and 0 <= desc <= 1
@@ -351,59 +402,13 @@ def h_ls_program(nk: int, z0: int, z1: int, gap0: int, gap1: int, base: int, des
     CNT[0] += 1
     nk, z0, z1, gap0, gap1, base, desc = conc(nk, 1, 2), conc(z0, 0, 4), conc(z1, 0, 4), conc(gap0, 0, 2), conc(gap1, 0, 2), conc(base, 0, 3), conc(desc, 0, 1)
     with untraced():
-        # program header: every numeric byte carries its own value (offset-derived), inside the ranges the enums accept
-        hdr = bytearray(150)
         # keygroup addresses: ascending (with gaps) or, desc, the second keygroup stored BELOW the first one (arbitrary next addresses)
         if desc and nk == 2:
             addrs = [150 + 7 * gap0 + 150 + 11 * gap1, 150 + 7 * gap0]
         else:
             addrs = [150 + 7 * gap0 + g * (150 + 11 * gap1) for g in range(nk)]
-        first = addrs[0]
-        vals = {}
-        for (name, off, w, signed) in T_PROGRAM:
-            v = (off * 3 + base * 17 + 1) % 120
-            if name == "program_id":
-                v = 1
-            elif name == "first_keygroup_address":
-                v = first
-            elif name == "number_of_keygroups":
-                v = nk
-            elif name == "priority":
-                v = (off + base) % 4
-            elif name == "voice_reassign":
-                v = base % 2
-            elif name in ("low_key", "high_key"):
-                v = 21 + (off + base) % 100
-            elif name in ("voice_output_scale_db", "stereo_output_scale_db"):
-                v = base % 2
-            elif signed:
-                v = ((off * 5 + base) % 100) - 50
-            vals[name] = v
-            hdr[off:off + w] = int(v).to_bytes(w, "little", signed=bool(signed) and v < 0) if v >= 0 else int(v).to_bytes(w, "little", signed=True)
-        hdr[3:15] = _akai_name("PROG NAME")
-        blob = bytearray(max(addrs) + 150 + 32)
-        blob[:150] = hdr
         zcounts = [z0, z1][:nk]
-        for g in range(nk):
-            nxt = addrs[g + 1] if g + 1 < nk else 0
-            kg = bytearray(150)
-            kg[0] = 2
-            kg[1:3] = struct.pack("<H", nxt)
-            kg[3], kg[4] = 24 + g, 100 + g
-            for i in range(5, 31):
-                kg[i] = (i * 2 + g) % 100
-            kg[30] = g % 2
-            kg[31] = 4
-            kg[32:34] = b"\xff\xff"
-            for zi in range(4):
-                nm = "ZONE %d %d" % (g, zi) if zi < zcounts[g] else ""
-                kg[34 + 24 * zi:58 + 24 * zi] = _zone(nm, zi)
-            kg[130], kg[131] = 5 + g, 1
-            kg[132:136] = bytes([1, 0, 1, 0])
-            kg[136:140] = bytes([3, 4, 5, 6])
-            kg[140:148] = struct.pack("<hhhh", -3, 7, -11, 13)
-            kg[148] = 9
-            blob[addrs[g]:addrs[g] + 150] = kg
+        blob, vals = build_program(nk, zcounts, addrs, base)
         p = ProgramParser.parse(bytes(blob) + bytes(16), _elem_name="PROG FILE", _elem_parent=None, _elem_routines={}, file_type="S3000 Program")
         text = p.get_info().to_string()
         rows = _parse_listing(text)
